@@ -278,7 +278,11 @@ def check_source_static(src, masks=(), only_within=None):
       continue
     seg = '\n'.join(lines[n.lineno - 1:n.end_lineno]) + '@%d' % n.col_offset
     res['funcs'].append((hashlib.sha1(seg.encode()).hexdigest()[:16], len(tab.get_symbols())))
-    for cat, direction, names in compare_function(n, tab, parents):
+    try:
+      diffs = compare_function(n, tab, parents)
+    except Exception as e:      # e.g. a function node the analysis never reached: no scope annotation
+      diffs = [('scope-annotation', 'missing', set(['%s: %s' % (type(e).__name__, str(e)[:80])]))]
+    for cat, direction, names in diffs:
       used = []
       rest = set(names)
       for label in masks:
@@ -610,7 +614,10 @@ class SGen(object):
         out.append('%sglobal %s' % (ind2, ', '.join(g)))
         declared |= set(g)
     if enclosing and self.r.random() < 0.45:
-      cands = sorted(set().union(*enclosing) - pset - declared - set(['self', 'p0', 'p1', 'p2', 'os', 'path', 'sep']))
+      pick = enclosing
+      if len(enclosing) >= 2 and self.r.random() < 0.5:
+        pick = enclosing[:-1]       # prefer a binding further out: the name passes through the function between
+      cands = sorted(set().union(*pick) - pset - declared)
       cands = [c for c in cands if c in POOL]
       if cands:
         nl = self.r.sample(cands, min(len(cands), self.r.choice([1, 1, 2])))
@@ -679,14 +686,37 @@ WITNESSES = [
      'crash', ('feature', 'except_as')),
     ('D7', 'known-D7', 'nested-params-leak-into-enclosing-bound',
      'D7: the parameter of a nested def / lambda is added to the enclosing function\'s `bound` '
-     '(visit_arg ignores _track_annotations_only)',
+     '(visit_arg ignores _track_annotations_only): symtable says p0 is not a local of f',
      'def f(v0):\n  def g(p0):\n    return p0\n  return g\n',
      ('locals', 'extra'), ('mask', 'D7')),
     ('D7b', 'known-D7', 'nested-lambda-param-hides-free-variable',
      'D7: a lambda parameter named like a variable the enclosing function reads from outside removes that '
-     'variable from the enclosing function\'s free variables (read - bound)',
+     'variable from the enclosing function\'s free variables (read - bound): g closes over v0, the analysis says no',
      'def f():\n  v0 = 1\n  def g():\n    h = lambda v0: v0\n    return v0\n  return g\n',
      ('free', 'missing'), ('mask', 'D7')),
+    ('N1', 'static-mismatch', 'nonlocal-of-nested-function-not-free-in-function-between',
+     'a name that a nested function declares nonlocal (bound two levels up) is a free variable of the function '
+     'in between for CPython (co_freevars of g), but Scope.finalize exports read - bound and visit_Nonlocal put '
+     'the name into bound: g.read - g.bound misses it (root cause of the fixed D4, still in activity)',
+     'def f():\n  v0 = 1\n  def g():\n    def h():\n      nonlocal v0\n      v0 = 2\n    return h\n  return g\n',
+     ('free', 'missing'), ('mask', 'nested-declared')),
+    ('N2', 'static-mismatch', 'class-attribute-hides-closure-variable-of-method',
+     'a class body that binds a name hides the same name used by a method (or generator expression) of the class: '
+     'methods skip the class scope, so g closes over f\'s v0, but the class scope exports read - bound',
+     'def f():\n  v0 = 1\n  def g():\n    class C0:\n      v0 = 2\n      def m(self):\n        return v0\n'
+     '    return C0\n  return g\n',
+     ('free', 'missing'), ('mask', 'class-shadow')),
+    ('N3', 'static-mismatch', 'walrus-in-comprehension-not-bound-in-function',
+     'the target of an assignment expression inside a comprehension is bound in the enclosing function '
+     '(PEP 572); _track_symbol treats every Store inside a comprehension as a comprehension target',
+     'def f(v0):\n  return [(v1 := t0) for t0 in v0]\n',
+     ('locals', 'missing'), ('feature', 'walrus_in_comp')),
+    ('N4', 'static-mismatch', 'parameter-annotation-read-in-the-function-not-in-the-defining-scope',
+     'a parameter annotation is evaluated where the def statement runs; the analysis skips it there '
+     '(_track_annotations_only) and records the read in the function\'s own scope (visit_arg -> generic_visit): '
+     'G0 is reported as a free variable of g, CPython has it in f only',
+     'def f():\n  def g(p0: G0):\n    return p0\n  return g\n',
+     ('free', 'extra'), ('feature', 'arg_annotations')),
 ]
 
 
@@ -710,6 +740,100 @@ def run_witness(w):
 SIMPLE = (ast.Assign, ast.AugAssign, ast.AnnAssign, ast.Expr, ast.Return, ast.Delete, ast.Raise, ast.Assert,
           ast.Import, ast.ImportFrom)
 HELPERS = ('c08pre_', 'c08post_', 'c08ld_', 'c08enter_', 'c08s_')
+
+
+# progen has no del / import / global / annotated assignment / walrus / keyword-only parameters: a few
+# hand-written programs in the progen interface add those statement kinds to clause 2
+EXTRA_PROGRAMS = [progen.HEADER + '''
+GV = 0
+
+def f(t, c, a):
+  global GV
+  import os.path as op, sys
+  from os import sep as s2
+  x = a[0]
+  y: int = x + 1
+  z: int
+  GV = GV + x
+  GV += 1
+  if (w := t(1)) and c():
+    del x
+    x = w
+  b = Box()
+  b.v = y
+  b.v += GV
+  a[0] = b.v
+  a[1] += 1
+  u, (v, *r) = 1, (2, 3, 4)
+
+  def g(p, q=y, *ar, k=u, **kw):
+    nonlocal u, v
+    global GV
+    u = p + q + k + len(ar) + len(kw)
+    v += 1
+    GV -= 1
+    del p
+    return u
+  z = g(1) + g(2, 3, 5, k=4, j=6)
+  lam = lambda m, n=z: m + n + u
+  z = lam(t(2))
+  assert z, y
+  xs = [i + u for i in range(3) if i != v]
+  d = {k2: v2 + y for k2, v2 in [(1, 2)]}
+  try:
+    if c():
+      raise ValueError(z)
+  except ValueError:
+    z = 0
+    del d
+  with CM(t, 3) as cm:
+    z = z + cm
+  for i, j in [(1, 2)]:
+    z += i + j
+    del i, j
+  if c():
+    del a[0]
+    return d
+  return (x, y, z, u, v, GV, w, r, xs, op is not None, s2, sys is not None)
+''', progen.HEADER + '''
+GA = 1
+GB = 2
+
+def f(t, c, a):
+  x = y = t(1)
+
+  def outer(p, /, q, *, k=x):
+    global GA
+    m = p + q + k
+
+    def inner(*args, **kw):
+      nonlocal m
+      global GB
+      m += len(args)
+      GB = GB + m
+      if c():
+        del m
+        m = 0
+      return m + GA
+    GA = inner(1, 2) + inner()
+
+    class K(object):
+      attr = m
+
+      def meth(self, inc=1):
+        self.attr = self.attr + inc + m
+        return self.attr
+    o = K()
+    o.meth()
+    o.meth(inc=t(2))
+    return o.attr + m
+  x = outer(1, 2)
+  y = outer(1, q=x, k=y)
+  while c():
+    x, y = y, x
+    x -= 1
+  return (x, y, GA, GB)
+''']
 
 
 def stmt_key(n):
@@ -905,6 +1029,14 @@ class Runtime(object):
 
 
 def check_dynamic(item):
+  try:
+    return _check_dynamic(item)
+  except Exception as e:
+    return dict(idx=item[0], instances=0, runs=0, violations=[], statements=0, exercised=0, static=None,
+                crash='checker-bug:%s: %s' % (type(e).__name__, traceback.format_exc()[-300:]))
+
+
+def _check_dynamic(item):
   idx, src, maxlen, cap = item
   res = dict(idx=idx, instances=0, runs=0, violations=[], crash=None, statements=0, exercised=0, static=None)
   try:
@@ -962,7 +1094,11 @@ def item_masks():
 def check_static(item):
   idx, seed, features = item
   src, attempts = static_program(seed, features)
-  r = check_source_static(src, masks=item_masks())
+  try:
+    r = check_source_static(src, masks=item_masks())
+  except Exception as e:
+    r = dict(funcs=[], mismatches=[], masked={}, skipped=0,
+             crash='checker-bug:%s: %s' % (type(e).__name__, traceback.format_exc()[-300:]))
   r['idx'] = idx
   r['attempts'] = attempts
   r['src'] = src if (r['mismatches'] or r['crash']) else None
@@ -1040,11 +1176,11 @@ def main():
   ap.add_argument('--random', type=int, default=None, help='number of random progen programs for clause 2')
   ap.add_argument('--k', type=int, default=None)
   ap.add_argument('--no-shrink', action='store_true')
-  ap.add_argument('--maxfail', type=int, default=10)
+  ap.add_argument('--maxfail', type=int, default=12)
   a = ap.parse_args()
   thorough = a.tier == 'thorough'
-  nstatic = a.static if a.static is not None else (40000 if thorough else 3000)
-  nrand = a.random if a.random is not None else (8000 if thorough else 800)
+  nstatic = a.static if a.static is not None else (100000 if thorough else 4000)
+  nrand = a.random if a.random is not None else (12000 if thorough else 800)
   K = a.k if a.k is not None else (3 if thorough else 2)
   t0 = time.time()
   scratch = harness.scratch_dir()          # created before the fork: workers share it, we remove it
@@ -1101,6 +1237,9 @@ def main():
     nskel += 1
   for i in range(nrand):
     ditems.append((idx, progen.random_program(a.seed * 1000003 + i, size=2 + (i % 5), avoid=avoid), 6, 40))
+    idx += 1
+  for src in EXTRA_PROGRAMS:
+    ditems.append((idx, src, 6, 40))
     idx += 1
   instances = runs = stmts = exercised = 0
   dyn_fail = {}
